@@ -148,3 +148,35 @@ def apply(index, mapping):
                     n.attr = canonical
         done[f"{site}.{found}"] = canonical
     return done
+
+
+# static helper methods that the rules refer to as methods of a class; a maintainer may turn them into module-level functions
+HELPER_METHODS = {"MemoryMap": ("_align_up", "_translate")}
+
+
+def relocate_helpers(index):
+    """A static helper method that became a module-level function of the same module (same name, or the name plus a suffix) is
+    re-attached to its class for the analysis: calls `helper(...)` are rewritten to `self.<canonical>(...)` and the function is
+    registered as a static method.  Returns {class.method: function site}."""
+    done = {}
+    for cls in index.all_classes():
+        for name in HELPER_METHODS.get(cls.qual, ()):
+            if cls.method(name) is not None:
+                continue
+            fns = [(n_, g) for n_, g in cls.module.functions.items() if n_ == name or n_.startswith(name + "_")]
+            if len(fns) != 1:
+                continue
+            fname, fi = fns[0]
+            for n in ast.walk(cls.module.tree):
+                if isinstance(n, ast.Call) and isinstance(n.func, ast.Name) and n.func.id == fname:
+                    n.func = ast.copy_location(ast.Attribute(value=ast.Name(id="self", ctx=ast.Load()), attr=name, ctx=ast.Load()), n.func)
+                    ast.fix_missing_locations(n)
+            fi.node.name = name
+            fi.name = name
+            fi.cls = cls
+            if "staticmethod" not in fi.decorators:
+                fi.decorators.append("staticmethod")
+            fi.qual = cls.qual + "." + name
+            cls.methods.setdefault(name, []).append(fi)
+            done[f"{cls.qual}.{name}"] = fi.site
+    return done
